@@ -669,6 +669,11 @@ def module_env(prog: Any, module: Any, base: dict[str, Any], interp_kwargs: dict
                 continue
             except Exception:
                 pass
+        if isinstance(st, ast.ClassDef) and st.name not in env and st.name.startswith("_") and f"{module.name}.{st.name}" in getattr(prog, "classes", {}):
+            # a private helper class of the module is what its source says: instances are built from its dataclass fields (or
+            # its __init__) and its methods are interpreted
+            env[st.name] = _private_class(prog, f"{module.name}.{st.name}", base, kw)
+            continue
         if isinstance(st, ast.ClassDef) and st.name not in env:
             env[st.name] = type(st.name, (Recorded,), {})      # constructor calls are recorded (issue / error / value objects)
         elif isinstance(st, ast.Import):
@@ -690,6 +695,23 @@ def module_env(prog: Any, module: Any, base: dict[str, Any], interp_kwargs: dict
                         continue
                     except Exception:
                         pass
+                if nm not in env and (st.level or (st.module or "").split(".")[0] == "sigma"):
+                    # a module-level function of another module of the package is what its source says: interpreted in the
+                    # environment of the module it lives in (its helpers and constants), under the same stand-ins
+                    src_name = st.module or ""
+                    if st.level:
+                        parts = module.name.split(".")
+                        base_pkg = parts[:len(parts) - st.level] if not getattr(module, "is_package", False) else parts[:len(parts) - st.level + 1]
+                        src_name = ".".join(base_pkg + ([st.module] if st.module else []))
+                    src_mod = getattr(prog, "modules", {}).get(src_name)
+                    fdef = next((x for x in src_mod.tree.body if isinstance(x, ast.FunctionDef) and x.name == al.name), None) if src_mod is not None and src_mod is not module else None
+                    if fdef is not None:
+                        def make_ext(fd: ast.FunctionDef = fdef, sm: Any = src_mod) -> Any:
+                            def fn(*a: Any, **k: Any) -> Any:
+                                return Interp(module_env(prog, sm, base, kw), **kw)._make_function(fd)(*a, **k)
+                            return fn
+                        env[nm] = make_ext()
+                        continue
                 if nm not in env and nm[:1].isupper():
                     env[nm] = type(nm, (Recorded,), {})
         if isinstance(st, ast.FunctionDef) and st.name not in env:
@@ -895,6 +917,80 @@ class _Super:
         return lambda *a, **k2: None
 
 
+def _private_class(prog: Any, cq: str, base: dict[str, Any], kw: dict[str, Any]) -> Any:
+    def ctor(*a: Any, **k: Any) -> Any:
+        ci = prog.classes[cq]
+        init = prog.lookup_method(cq, "__init__")
+        if init is not None and init.cls is not None and init.cls.qual in prog.classes and not ci.is_dataclass:
+            me = Proxy(prog, cq, base, {}, ctor=ctor, interp_kwargs=kw)
+            call_method(prog, cq, "__init__", me, base, *a, interp_kwargs=kw, **k)
+            return me
+        fields = prog.dataclass_fields(cq)
+        attrs: dict[str, Any] = {}
+        positional = []
+        for n, st in fields.items():
+            v = st.value
+            init_flag = True
+            if isinstance(v, ast.Call) and unparse(v.func).split(".")[-1] == "field":
+                for kw_ in v.keywords:
+                    if kw_.arg == "init" and isinstance(kw_.value, ast.Constant):
+                        init_flag = bool(kw_.value.value)
+            if init_flag:
+                positional.append(n)
+        if len(a) > len(positional):
+            raise AnalysisError(f"tabulation: too many arguments for {cq}")
+        attrs.update(dict(zip(positional, a)))
+        attrs.update(k)
+        menv = module_env(prog, ci.module, base, kw)
+        for n, st in fields.items():
+            if n in attrs:
+                continue
+            v = st.value
+            if v is None:
+                raise AnalysisError(f"tabulation: {cq}() misses the argument {n}")
+            if isinstance(v, ast.Call) and unparse(v.func).split(".")[-1] == "field":
+                dflt = next((kw_.value for kw_ in v.keywords if kw_.arg == "default"), None)
+                fact = next((kw_.value for kw_ in v.keywords if kw_.arg == "default_factory"), None)
+                if dflt is not None:
+                    attrs[n] = Interp(menv, **kw).ev(dflt)
+                elif fact is not None:
+                    attrs[n] = Interp(menv, **kw).ev(fact)()
+            else:
+                attrs[n] = Interp(menv, **kw).ev(v)
+        me = Proxy(prog, cq, base, attrs, ctor=ctor, interp_kwargs=kw)
+        if prog.lookup_method(cq, "__post_init__") is not None:
+            call_method(prog, cq, "__post_init__", me, base, interp_kwargs=kw)
+        return me
+    return ClassProxy(prog, cq, base, ctor, kw)
+
+
+def _lend_static_helpers(prog: Any, module: Any, base: dict[str, Any], menv: dict[str, Any], kw: dict[str, Any]) -> None:
+    """A stand-in class of a rule models the *instances* of a class of the analysed module. Static and class methods that
+    the source class defines and the stand-in does not (helpers a refactoring moved there) are taken from the source and
+    interpreted in the same environment."""
+    for nm, obj in list(base.items()):
+        if not isinstance(obj, type) or isinstance(obj, ClassProxy):
+            continue
+        cdef = next((x for x in module.tree.body if isinstance(x, ast.ClassDef) and x.name == nm), None)
+        if cdef is None:
+            continue
+        for mdef in cdef.body:
+            if not isinstance(mdef, ast.FunctionDef) or mdef.name in obj.__dict__ or hasattr(obj, mdef.name):
+                continue
+            decos = [unparse(d_) for d_ in mdef.decorator_list]
+            if "staticmethod" not in decos and "classmethod" not in decos:
+                continue
+
+            def _mk(node: ast.FunctionDef = mdef) -> Any:
+                def _call(*a_: Any, **k_: Any) -> Any:
+                    return Interp(menv, **kw)._make_function(node)(*a_, **k_)
+                return _call
+            try:
+                setattr(obj, mdef.name, staticmethod(_mk()) if "staticmethod" in decos else classmethod(lambda c_, *a_, _f=_mk(), **k_: _f(c_, *a_, **k_)))
+            except (AttributeError, TypeError):
+                pass
+
+
 def call_method(prog: Any, cq: str, method: str, self_obj: Any, env: dict[str, Any], *args: Any, interp_kwargs: dict[str, Any] | None = None, **kwargs: Any) -> Any:
     """Interpret ``cq.method`` (looked up over the MRO in the source) on ``self_obj`` with the given arguments."""
     for q in prog.mro(cq):
@@ -903,6 +999,7 @@ def call_method(prog: Any, cq: str, method: str, self_obj: Any, env: dict[str, A
             m = c.methods[method]
             kw = dict(interp_kwargs or {})
             menv = module_env(prog, m.module, env, kw)
+            _lend_static_helpers(prog, m.module, env, menv, kw)
             if "super" not in env:  # a rule may stand in for the base classes
                 menv["super"] = lambda _q=q: _Super(prog, _q, self_obj, env, kw)
             fn = Interp(menv, **kw)._make_function(m.node)
